@@ -324,6 +324,143 @@ Qed.
 
 End Decision.
 
+(* ---- issuer / audience: the parser options of authenticateJWT ------------------------------ *)
+
+Lemma opt_issuer_spec c s : s <> [] -> (opt_ok c (WithIssuer s) = true <-> jc_iss c = s).
+Proof.
+  intros Hs. unfold opt_ok. destruct s as [|x s']; [congruence|].
+  destruct (jc_iss c) as [|y i'] eqn:Ei.
+  - split; [discriminate|]. intros N. discriminate.
+  - apply list_eqb_eq.
+Qed.
+
+Lemma existsb_eqb_in s auds : existsb (fun a => list_eqb a s) auds = true <-> In s auds.
+Proof.
+  rewrite existsb_exists. split.
+  - intros (a & Hin & E). apply list_eqb_eq in E. subst. exact Hin.
+  - intros Hin. exists s. split; [exact Hin|apply list_eqb_refl].
+Qed.
+
+Lemma opt_audience_spec c s : s <> [] -> (opt_ok c (WithAudience s) = true <-> In s (jc_aud c)).
+Proof.
+  intros Hs. unfold opt_ok. destruct (jc_aud c) as [|a [|b l]] eqn:Ea.
+  - split; [discriminate|]. intros [].
+  - destruct a as [|x a'].
+    + split; [discriminate|]. intros [E|[]]. congruence.
+    + apply existsb_eqb_in.
+  - destruct a; apply existsb_eqb_in.
+Qed.
+
+(* which options are passed *)
+Lemma parser_opts_in issuer audience o :
+  In o (parser_opts issuer audience) <->
+  (o = WithIssuer issuer /\ issuer <> []) \/ (o = WithAudience audience /\ audience <> []).
+Proof.
+  unfold parser_opts. destruct issuer as [|x i]; destruct audience as [|y a]; cbn [app In]; split.
+  - intros [].
+  - intros [[_ N]|[_ N]]; congruence.
+  - intros [<-|[]]. right. split; [reflexivity|discriminate].
+  - intros [[_ N]|[-> _]]; [congruence|]. left. reflexivity.
+  - intros [<-|[]]. left. split; [reflexivity|discriminate].
+  - intros [[-> _]|[_ N]]; [|congruence]. left. reflexivity.
+  - intros [<-|[<-|[]]]; [left|right]; (split; [reflexivity|discriminate]).
+  - intros [[-> _]|[-> _]]; [left|right; left]; reflexivity.
+Qed.
+
+(* the options accept the claims iff each configured setting is satisfied - independently of the other *)
+Lemma parser_opts_ok c issuer audience :
+  forallb (opt_ok c) (parser_opts issuer audience) = true <->
+  (issuer = [] \/ jc_iss c = issuer) /\ (audience = [] \/ In audience (jc_aud c)).
+Proof.
+  rewrite forallb_forall. split.
+  - intros H. split.
+    + destruct issuer as [|x i] eqn:Ei; [left; reflexivity|right]. rewrite <- Ei in *.
+      apply opt_issuer_spec; [congruence|]. apply H. apply parser_opts_in. left. split; [reflexivity|congruence].
+    + destruct audience as [|y a] eqn:Ea; [left; reflexivity|right]. rewrite <- Ea in *.
+      apply opt_audience_spec; [congruence|]. apply H. apply parser_opts_in. right. split; [reflexivity|congruence].
+  - intros [Hi Ha] o Ho. apply parser_opts_in in Ho. destruct Ho as [[-> Ne]|[-> Ne]].
+    + apply opt_issuer_spec; [exact Ne|]. destruct Hi; congruence.
+    + apply opt_audience_spec; [exact Ne|]. destruct Ha; congruence.
+Qed.
+
+Lemma parse_with_claims_iff jwt_verify issuer audience tok sub raw :
+  parse_with_claims jwt_verify (parser_opts issuer audience) tok = Some (sub, raw) <->
+  exists c, jwt_verify tok = Some c /\ sub = jc_sub c /\ raw = jc_raw c /\
+            (issuer = [] \/ jc_iss c = issuer) /\ (audience = [] \/ In audience (jc_aud c)).
+Proof.
+  unfold parse_with_claims. destruct (jwt_verify tok) as [c|].
+  - destruct (forallb (opt_ok c) (parser_opts issuer audience)) eqn:Ef.
+    + apply parser_opts_ok in Ef. split.
+      * intros [= <- <-]. exists c. tauto.
+      * intros (c' & [= <-] & -> & -> & _). reflexivity.
+    + split; [discriminate|]. intros (c' & [= <-] & _ & _ & H). apply parser_opts_ok in H. congruence.
+  - split; [discriminate|]. intros (c' & N & _). discriminate.
+Qed.
+
+Section Configured.
+Variable rx : list Z -> list Z -> bool.
+Variable jwt_verify : list Z -> option jclaims.
+Variable dec_perms : list Z -> option (list perm).
+Variable dec_str : list Z -> option (list Z).
+
+Theorem jwt_cfg_iff issuer audience ex jwks_ok inq r u :
+  authenticate_jwt_cfg rx jwt_verify dec_perms dec_str issuer audience ex jwks_ok inq r = Granted u <->
+  (excluded rx ex r = true /\ u = []) \/
+  (excluded rx ex r = false /\ jwks_ok = true /\
+   let tok := get_token (in_query_flag true inq) r in
+   tok <> [] /\
+   exists c raw ps, jwt_verify tok = Some c /\ u = jc_sub c /\
+                    (issuer = [] \/ jc_iss c = issuer) /\ (audience = [] \/ In audience (jc_aud c)) /\
+                    jc_raw c = Some raw /\ claim_perms dec_perms dec_str raw = Some ps /\
+                    matches_permission rx ps (x_action r) (x_path r) = true).
+Proof.
+  unfold authenticate_jwt_cfg. rewrite jwt_iff. cbv zeta. split.
+  - intros [H|(Ex & Jk & Nt & raw & ps & Hp & Hc & Hm)]; [left; exact H|right].
+    apply parse_with_claims_iff in Hp. destruct Hp as (c & Hv & Hs & Hr & Hi & Ha).
+    repeat split; try assumption. exists c, raw, ps. repeat split; auto.
+  - intros [H|(Ex & Jk & Nt & c & raw & ps & Hv & Hs & Hi & Ha & Hr & Hc & Hm)]; [left; exact H|right].
+    repeat split; try assumption. exists raw, ps. repeat split; try assumption.
+    apply parse_with_claims_iff. exists c. repeat split; auto.
+Qed.
+
+(* each configured setting is enforced whatever the other one is *)
+Theorem jwt_cfg_wrong_issuer issuer audience ex jwks_ok inq r c :
+  issuer <> [] -> excluded rx ex r = false ->
+  jwt_verify (get_token (in_query_flag true inq) r) = Some c -> jc_iss c <> issuer ->
+  forall u, authenticate_jwt_cfg rx jwt_verify dec_perms dec_str issuer audience ex jwks_ok inq r <> Granted u.
+Proof.
+  intros Ni Ex Hv Hw u H. apply jwt_cfg_iff in H. cbv zeta in H.
+  destruct H as [[N _]|(_ & _ & _ & c' & raw & ps & Hv' & _ & Hi & _)]; [congruence|].
+  rewrite Hv in Hv'. injection Hv' as <-. destruct Hi; congruence.
+Qed.
+
+Theorem jwt_cfg_wrong_audience issuer audience ex jwks_ok inq r c :
+  audience <> [] -> excluded rx ex r = false ->
+  jwt_verify (get_token (in_query_flag true inq) r) = Some c -> ~ In audience (jc_aud c) ->
+  forall u, authenticate_jwt_cfg rx jwt_verify dec_perms dec_str issuer audience ex jwks_ok inq r <> Granted u.
+Proof.
+  intros Na Ex Hv Hw u H. apply jwt_cfg_iff in H. cbv zeta in H.
+  destruct H as [[N _]|(_ & _ & _ & c' & raw & ps & Hv' & _ & _ & Ha & _)]; [congruence|].
+  rewrite Hv in Hv'. injection Hv' as <-. destruct Ha; [congruence|contradiction].
+Qed.
+
+(* settings that are not configured do not restrict: a token granted under (issuer, audience) is granted under ("", "") *)
+Theorem jwt_cfg_unset_monotone issuer audience ex jwks_ok inq r u :
+  authenticate_jwt_cfg rx jwt_verify dec_perms dec_str issuer audience ex jwks_ok inq r = Granted u ->
+  authenticate_jwt_cfg rx jwt_verify dec_perms dec_str [] [] ex jwks_ok inq r = Granted u.
+Proof.
+  rewrite !jwt_cfg_iff. cbv zeta.
+  intros [H|(Ex & Jk & Nt & c & raw & ps & Hv & Hs & _ & _ & Hr)]; [left; exact H|right].
+  repeat split; try assumption. exists c, raw, ps. repeat split; try tauto; left; reflexivity.
+Qed.
+
+Theorem jwt_cfg_ask issuer audience ex jwks_ok inq r a :
+  authenticate_jwt_cfg rx jwt_verify dec_perms dec_str issuer audience ex jwks_ok inq r = Denied a ->
+  (a = true <-> x_ask r = true /\ x_user r = [] /\ x_pass r = [] /\ get_token (in_query_flag true inq) r = []).
+Proof. unfold authenticate_jwt_cfg. apply jwt_ask. Qed.
+
+End Configured.
+
 (* ====================================================================================== *)
 (* 3. the posted JSON body decodes to the request's fields                                 *)
 
